@@ -111,7 +111,8 @@ def worker(slot, q, lock):
             return
         res = dict(mu)
         path = os.path.join(M, "repo", mu["file"])
-        sh(f"rsync -a --delete --exclude target --exclude .git /repo/ {M}/repo/")
+        # restored files get a fresh time stamp, or cargo would not rebuild them (mirror_check.sh)
+        sh(f"rsync -a --delete --exclude target --exclude .git --out-format='%n' /repo/ {M}/repo/ | while IFS= read -r f; do [ -f \"{M}/repo/$f\" ] && touch \"{M}/repo/$f\"; done")
         lines = open(path).read().split("\n")
         if lines[mu["line"] - 1] != mu["old"]:
             res["status"] = "stale"
